@@ -206,6 +206,29 @@ func (propC09) Draw(rt *rapid.T, w *WorldDesc, mode string) *Plan {
 	return p
 }
 
+// planMatchesDocument: the header parameters the plan was drawn from (its "oa:" notes) are
+// the header parameters the current OpenAPI document lists for the operation.
+func planMatchesDocument(w *WorldDesc, rpc *spec.RPC, op *Op) bool {
+	ops := findOperation(loadOpenAPI(w), rpc.Service, rpc.Method)
+	if len(ops) != 1 {
+		return false
+	}
+	var doc, plan []string
+	for _, prm := range ops[0].Params {
+		if prm.In == "header" {
+			doc = append(doc, strings.ToLower(prm.Name))
+		}
+	}
+	for _, n := range op.Notes {
+		if strings.HasPrefix(n, "oa:") {
+			plan = append(plan, strings.SplitN(strings.TrimPrefix(n, "oa:"), "=", 2)[0])
+		}
+	}
+	sort.Strings(doc)
+	sort.Strings(plan)
+	return strings.Join(doc, "\x00") == strings.Join(plan, "\x00")
+}
+
 func (propC09) Check(k *Kernel, cov *Coverage) *Violation {
 	for _, c := range k.Calls {
 		if c.Op.Raw == nil || len(c.Conns) == 0 {
@@ -220,6 +243,9 @@ func (propC09) Check(k *Kernel, cov *Coverage) *Violation {
 			}
 			if !c.Returned || c.RespErr != nil {
 				continue
+			}
+			if !planMatchesDocument(k.W, rpc, c.Op) {
+				continue // replayed plan drawn from another document than the tree now emits: no verdict
 			}
 			if c.Status == 400 {
 				ve, err := decodeValidation(c)
